@@ -708,6 +708,8 @@ func (t *streamableHTTPClientTransport) connectGetSSE(ctx context.Context) error
 // Handle GET SSE event stream
 func (t *streamableHTTPClientTransport) handleGetSSEEvents(ctx context.Context, body io.ReadCloser) error {
 	scanner := bufio.NewScanner(body)
+	// Frames can be far larger than bufio.Scanner's 64 KiB default; a too-long line would end the stream silently.
+	scanner.Buffer(make([]byte, 0, 64*1024), 1<<30)
 	var eventID, eventData string
 
 	for scanner.Scan() {
